@@ -20,7 +20,7 @@ from pv.runner import Res
 ID = "C17"
 RULE = ("generated full domain + problem split into 1-4 overlapping per-agent files (each closed under the names it "
         "uses: types with ancestors, constants, predicates, functions; problem objects of the facts it lists), written "
-        "to a fresh directory; every discovery order up to 24 permutations; optional dummy actions; an unrelated typed "
+        "to a fresh directory; every discovery order up to 24 permutations; optional dummy actions; one converter object per call or (half of the cases) one object for the whole history, first used with the other dummy setting over a directory holding one more agent file; an unrelated typed "
         "and an untyped domain parsed before and after.  Non-trivial = >= 2 files with a non-empty overlap.  Distinct "
         "by (full domain, split).")
 ASSUMPTIONS = ["all agent files declare the same domain name and agree on the declarations they share",
@@ -207,10 +207,29 @@ def check_case(case):
     first_vocab = None
     first_prob = None
     nperm = 0
+    # converter objects: one per call, or (reuse) one for the whole history, warmed up by a combination with the
+    # other dummy setting over a directory that held one more agent file at the time
+    reuse = bool(case.get("reuse"))
+    shared_dc = MultiAgentDomainsConverter(d)
+    shared_pc = MultiAgentProblemsConverter(d, "problem")
+    dconv = (lambda: shared_dc) if reuse else (lambda: MultiAgentDomainsConverter(d))
+    pconv = (lambda: shared_pc) if reuse else (lambda: MultiAgentProblemsConverter(d, "problem"))
+    warm = warm_digest = None
+    if reuse:
+        res.classes[0] += "+reuse"
+        extra = dict(other_typed, name=dom["name"])
+        with open(d / "domain-zextra.pddl", "w") as fh:
+            fh.write(domain_text(extra))
+        okw, warm = lib_call(shared_dc.locate_domains, not dummy)
+        os.unlink(d / "domain-zextra.pddl")
+        if not okw:
+            res.bad(f"C17/combine-domains/exception:{warm.key}", {**info, "error": repr(warm), "call": "warm-up"})
+            return res
+        warm_digest = c07.digest_domain(warm)
     for perm in perms(n, case.get("perm") or [0], 6 if n > 2 else 24):
         nperm += 1
         with GlobOrder(list(perm)):
-            okc, comb = lib_call(MultiAgentDomainsConverter(d).locate_domains, dummy)
+            okc, comb = lib_call(dconv().locate_domains, dummy)
         if not okc:
             res.bad(f"C17/combine-domains/exception:{comb.key}", {**info, "order": list(perm), "error": repr(comb)})
             return res
@@ -242,7 +261,7 @@ def check_case(case):
         # export + re-parse + problems
         out_dir = fresh_dir()
         with GlobOrder(list(perm)):
-            okx, path = lib_call(MultiAgentDomainsConverter(d).export_combined_domain, dummy, out_dir)
+            okx, path = lib_call(dconv().export_combined_domain, dummy, out_dir)
         if not okx:
             res.bad(f"C17/export-combined-domain/exception:{path.key}", {**info, "error": repr(path)})
             return res
@@ -255,7 +274,7 @@ def check_case(case):
         if res.disc:
             return res
         with GlobOrder(list(perm)):
-            okq, cprob = lib_call(MultiAgentProblemsConverter(d, "problem").combine_problems, Path(path))
+            okq, cprob = lib_call(pconv().combine_problems, Path(path))
         if not okq:
             res.bad(f"C17/combine-problems/exception:{cprob.key}", {**info, "error": repr(cprob)})
             return res
@@ -283,6 +302,8 @@ def check_case(case):
         elif not (c09.has_function_repeat(pr) and ctx.active("K2-function-repeat")):
             res.bad(f"C17/export-combined-problem/exception:{out.key}", {**info, "error": repr(out)})
             return res
+    if warm is not None and c07.digest_domain(warm) != warm_digest:
+        res.bad("C17/earlier-combination-changed-by-later-calls", {**info, "before": warm_digest[:600], "after": c07.digest_domain(warm)[:600]})
     # nothing else was disturbed
     fresh_ok, fresh = lib_call(lambda: sorted(Domain().types))
     if not fresh_ok or fresh != ["object"]:
@@ -330,7 +351,7 @@ def gen(ch, tier):
         ag["types"] = sorted({t for _, t in part["objects"] if t != "object"})
         ag["extra"] = sorted(set(ag["extra"]))
         ag["consts"] = sorted(set(ag["consts"]))
-    return {"dom": dom, "problem": pr, "agents": agents, "assignment": assignment, "dummy": ch.flag(0.3),
+    return {"dom": dom, "problem": pr, "agents": agents, "assignment": assignment, "dummy": ch.flag(0.3), "reuse": ch.flag(0.5),
             "perm": [ch.int(0, 23)]}
 
 
